@@ -107,7 +107,20 @@ def _race(case: dict) -> dict:
         from .. import interleave
     except ImportError:
         return {"violations": [], "obs": {}, "keys": []}
-    return interleave.race_for_c06(case)
+    res = interleave.race_for_c06(case)
+    # mechanism: the operator's pause() lands between CompleteWorkflow's read of the execution and its
+    # (unconditional) status write - the final status overwrites PAUSED, a change the table does not list
+    out = []
+    for v in res["violations"]:
+        row = v.get("row") or {}
+        if v["sig"].startswith("C06/illegal-transition:wf:PAUSED->") and row.get("d") in oracles.COMPLETE and "CompleteWorkflow" in v["msg"]:
+            from ..framework import viol
+
+            out.append(dict(v, **viol("C06/workflow-completed-over-a-concurrent-pause", v["msg"])))
+        else:
+            out.append(v)
+    res["violations"] = _uniq(out)
+    return res
 
 
 def _mechanism(vs: list[dict], run) -> list[dict]:
